@@ -8,6 +8,14 @@ CLAIMS = {
   text="Every path of the alert emission code (stream and batch form), of the level decision, of history bookkeeping, episode start and topic fan-out is compared with a reference guard/effect table written from the statement; the values carried by the event are shown to be the recorded ones by provenance. This is a proof over all paths of those functions of the *structural* clauses only.",
   ref="§3 C01", technique="path-sensitive guard/effect tables over uninterpreted atoms (AST paths + type-resolved atoms), value provenance keys, field-writer confinement",
   note="Trusted: go/types; the reference tables in props/c01.go; purity of message getters. Not decided: level ranges scanned by the two searches, flapping/percentChange and duration arithmetic, batch min/max scan."),
+ "C04": dict(
+  text="All 61 entries of the evaluator's operator table are analysed on every path and compared with the documented operator×type matrix (operand Eval kinds, error-side flags, the Go operator with left on the left, result kind, conversion only of the int side of mixed pairs, AND/OR short-circuit, no value on error paths); the key set equals the matrix; the re-specialisation protocol and the signature check before evaluation are compared with reference tables. Decides the table's structure for all expressions; Go's arithmetic is trusted.",
+  ref="§3 C04", technique="table/key agreement over the type-checked AST + path-sensitive effect tables + normal-form term matching per table entry",
+  note="Trusted: go/types; the documented matrix in props/c04.go; Go operators as the mathematical reference. Not decided: numeric results of built-in functions, stateful functions' per-group history, scope binding beyond the signature check."),
+ "C13": dict(
+  text="Writer/reader agreement of every serialisation behind the round trips: AST node JSON (typeOf three-way, key sets, same field, reader kind, Equal-field completeness, no nil factory call), pipeline node JSON (typeOf written=accepted, registry membership, factory yields the node type, accepted dynamic argument types, parent acceptance, overridden fields parsed back), and existence+arity of every name a pipeline→TICKscript builder emits. A mismatch on any one row makes some program fail its round trip.",
+  ref="§3 C13", technique="table and registry agreement extracted from the type-checked AST (writer vs reader vs factory), path analysis of the factory",
+  note="Trusted: encoding/json semantics for embedded alias structs; tick's reflection naming rule. Not decided: escaping, operator precedence/parentheses, comments, idempotence of formatting (properties of all programs)."),
 }
 
 _pending = "check not built yet in this round (see DESIGN.md §3 for the planned structural rules); will move to `checks` once armed and exact on the tree"
